@@ -211,8 +211,8 @@ Qed.
 
 Lemma payload_nat : forall v, in_range_lit KNat v -> payload (literal_hugr KNat v) = Ok (6, v).
 Proof.
-  intros v H. unfold literal_hugr, payload, unsigned_post_init, unsigned_payload. rewrite width_val. cbn in H.
-  destruct (Z.leb 0 v) eqn:E; [reflexivity | lia].
+  intros v H. unfold literal_hugr, payload, unsigned_post_init, unsigned_payload, unsigned_model. rewrite width_val. cbn in H.
+  destruct (Z.leb 0 v) eqn:E; [| lia]. cbn [bind]. rewrite !Z.eqb_refl. reflexivity.
 Qed.
 
 Lemma compile_const_spec : forall ty v, in_range_lit ty v ->
